@@ -911,9 +911,9 @@ func emitAgg(w *world, s searchSpec, si, ti, ai int, a aggSpec, t *tree, qpr *se
 	// documents as this aggregation sees them
 	leafCoq := make([]string, len(w.fracs))
 	nsel, nlive := 0, 0
-	// a time series with group in which a selected document has the group token but not the field: the code
-	// keeps that per-group not-exists count in bin (MID 0, group), which Aggregate(SkipWithoutTimestamp) drops.
-	// Kept as its own class so that this behaviour can be classified separately.
+	// a time series with group in which a selected document has the group token but not the field: before
+	// f3224d2 the code kept that per-group not-exists count in bin (MID 0, group), which
+	// Aggregate(SkipWithoutTimestamp) drops. Permanent regression class.
 	tsGroupNE := false
 	for i, f := range w.fracs {
 		parts := make([]string, len(f))
